@@ -97,12 +97,12 @@ macro_rules! exact_body {
 }
 
 #[kani::proof]
-#[kani::unwind(34)]
-fn c18_exact_w3() { exact_body!(3, 32) }
+#[kani::unwind(42)]
+fn c18_exact_w3() { exact_body!(3, 40) }
 
 #[kani::proof]
-#[kani::unwind(42)]
-fn c18_exact_w5() { exact_body!(5, 40) }
+#[kani::unwind(50)]
+fn c18_exact_w5() { exact_body!(5, 48) }
 
 /// A construct NOT directly preceded by a doc comment has none: something else (`x;`) sits between, or there is only an ordinary comment.
 #[kani::proof]
